@@ -1,7 +1,6 @@
 import LentilVerif.Model.PlaneMeta
-import LentilVerif.Lemmas.Extent
-import Mathlib.Algebra.GroupWithZero.Defs
-import Mathlib.Algebra.Group.Basic
+import LentilVerif.Lemmas.PlaneAlg
+import LentilVerif.Props.C06
 /-! # C07 — wavefront views agree with each other and planes act as pointwise phasors
 
 Property theorems only. `Gen.mulPixelscale??` and `Gen.sliceOffset` are regenerated from lentil/plane.py and
@@ -63,5 +62,80 @@ theorem plane_refuses_iff (phOf : M → R → K) (p : PlaneM K R) (ppx : Option 
   by_cases h : x = y <;> simp [h]
 
 end handover
+
+/-! ## A plane multiplies the embedded field pointwise by its phasor -/
+section phasor
+variable {K R : Type} [NonUnitalNonAssocSemiring K]
+
+/-- **`Plane.multiply` multiplies the total embedded field by the sum of the plane's phasors**, at every pixel of the
+infinite plane, for any number of incoming fields and segments of any shapes and offsets (products that do not overlap
+are dropped by the code and contribute 0 here). One-element operands act as constants (`Fld.sem`): this is how the
+fresh wavefront (a single `1`) takes the shape of the first plane. Excluded: a pair in which *both* the field and the
+phasor have one element (known finding KF-C07-one-pixel-segment). -/
+theorem plane_multiply_total (ph : R → K) (p : PlaneM K R) (data : List (Fld K))
+    (hd : ∀ f ∈ data, 0 < f.arr.s0 ∧ 0 < f.arr.s1) (hq : ∀ q ∈ planePhasors ph p, 0 < q.arr.s0 ∧ 0 < q.arr.s1)
+    (h1 : ∀ f ∈ data, ∀ q ∈ planePhasors ph p, (f.size1 && q.size1) = false) (r c : Int) :
+    sumList (planeMultiply ph p data) (fun g => g.emb r c)
+      = sumList data (fun f => f.sem r c) * sumList (planePhasors ph p) (fun q => q.sem r c) := by
+  unfold planeMultiply
+  rw [sumList_flatMap, ← sumList_mul_right]
+  apply sumList_congr
+  intro f hf
+  rw [sumList_filterMap, ← sumList_mul_left]
+  apply sumList_congr
+  intro q hq'
+  have key := C06.mul_sem f q (h1 f hf q hq') (hd f hf) (hq q hq') r c
+  cases hm : f.mul q with
+  | none => simp only [hm] at key ⊢; exact key
+  | some y => simp only [hm] at key ⊢; exact key
+
+/-- **array mask**: the total field after the plane is the total field before it times
+`amplitude * exp(2 pi i opd / wavelength)` where a segment's mask is set and times `0` everywhere else — for scalar or
+array amplitude and OPD (`Attr`), one or many segments, any bounding slices that cover the masks (overlapping or not).
+Hypothesis `hbig`: no segment's bounding box is a single pixel (known finding KF-C07-one-pixel-segment). -/
+theorem plane_multiply_pointwise (ph : R → K) (amp : Attr K) (opd : Attr R) (S0 S1 : Int) (l : List Seg)
+    (hc : ∀ g ∈ l, g.covers S0 S1)
+    (hbig : ∀ g ∈ l, g.s.r0 < g.s.r1 ∧ g.s.c0 < g.s.c1 ∧ ¬ (g.s.r1 - g.s.r0 = 1 ∧ g.s.c1 - g.s.c0 = 1))
+    (data : List (Fld K)) (hd : ∀ f ∈ data, 0 < f.arr.s0 ∧ 0 < f.arr.s1) (r c : Int) :
+    sumList (planeMultiply ph ⟨amp, opd, .segs S0 S1 l⟩ data) (fun g => g.emb r c)
+      = sumList data (fun f => f.sem r c) * sumList l (fun g => segFactor ph amp opd S0 S1 g.m r c) := by
+  have hs1 : ∀ g ∈ l, (segPhasor ph amp opd S0 S1 g).size1 = false := by
+    intro g hg
+    obtain ⟨_, _, h3⟩ := hbig g hg
+    rw [Bool.eq_false_iff]; intro hh
+    simp only [Fld.size1, segPhasor, Bool.and_eq_true, decide_eq_true_eq] at hh
+    exact h3 ⟨of_decide_eq_true hh.1, of_decide_eq_true hh.2⟩
+  rw [plane_multiply_total ph _ data hd]
+  · congr 1
+    simp only [planePhasors]
+    rw [sumList_map]
+    apply sumList_congr
+    intro g hg
+    simp only [Fld.sem, hs1 g hg, Bool.false_eq_true, if_false]
+    exact segPhasor_emb ph amp opd S0 S1 g (hc g hg) r c
+  · intro q hq
+    simp only [planePhasors, List.mem_map] at hq
+    obtain ⟨g, hg, rfl⟩ := hq
+    obtain ⟨h1, h2, _⟩ := hbig g hg
+    simp only [segPhasor]; omega
+  · intro f _ q hq
+    simp only [planePhasors, List.mem_map] at hq
+    obtain ⟨g, hg, rfl⟩ := hq
+    rw [hs1 g hg, Bool.and_false]
+
+/-- the literal statement for a monolithic plane (one mask): inside the mask the field is multiplied by
+`amplitude * exp(2 pi i opd / wavelength)`, outside by `0` -/
+theorem plane_multiply_monolithic (ph : R → K) (amp : Attr K) (opd : Attr R) (S0 S1 : Int) (g : Seg)
+    (hc : g.covers S0 S1) (hbig : g.s.r0 < g.s.r1 ∧ g.s.c0 < g.s.c1 ∧ ¬ (g.s.r1 - g.s.r0 = 1 ∧ g.s.c1 - g.s.c0 = 1))
+    (data : List (Fld K)) (hd : ∀ f ∈ data, 0 < f.arr.s0 ∧ 0 < f.arr.s1) (r c : Int) :
+    sumList (planeMultiply ph ⟨amp, opd, .segs S0 S1 [g]⟩ data) (fun g => g.emb r c)
+      = sumList data (fun f => f.sem r c) *
+        (if 0 ≤ r + S0 / 2 ∧ r + S0 / 2 < S0 ∧ 0 ≤ c + S1 / 2 ∧ c + S1 / 2 < S1 ∧ g.m (r + S0 / 2) (c + S1 / 2) = true
+         then amp.at (r + S0 / 2) (c + S1 / 2) * ph (opd.at (r + S0 / 2) (c + S1 / 2)) else 0) := by
+  rw [plane_multiply_pointwise ph amp opd S0 S1 [g] (by simpa using hc) (by simpa using hbig) data hd r c]
+  rw [sumList_cons, sumList_nil, add_zero]
+  rfl
+
+end phasor
 
 end Lentil.C07
